@@ -242,6 +242,45 @@ def cell(key, feats):
     return problems
 
 
+COLLIDING = (("sales", "order_items"), ("sales_order", "items"))          # sales_order_items twice
+CONTROL = (("sales", "lineitems"), ("receipts", "items"))                  # the same graph under names that cannot collide
+
+
+def underscore_names_cell(key, names=COLLIDING):
+    """four models whose names contain underscores so that "<model>_<related>" is not unique (sales -> order_items, sales_order -> items): both relationships
+    survive a round trip, and each measure grouped by ITS related dimension keeps its values.  -> list of problems"""
+    from sidemantic import Dimension, Metric, Model, Relationship
+    def fact(name, related):
+        return Model(name=name, table="orders", primary_key="id", relationships=[Relationship(name=related, type="many_to_one", foreign_key="customer_id")],
+                     dimensions=[Dimension(name="status", type="categorical")], metrics=[Metric(name="m", agg="sum", sql="amount")])
+    def dim(name, col):
+        return Model(name=name, table="customers", primary_key="id", dimensions=[Dimension(name="region", type="categorical", sql=col)], metrics=[Metric(name="cnt", agg="count")])
+    (f1, d1), (f2, d2) = names
+    models = [dim(d1, "region"), dim(d2, "region"), fact(f1, d1), fact(f2, d2)]
+    L1 = layer_with(models)
+    g2 = export_import(key, L1.graph)
+    if g2 is None or not all(n in g2.models for n in (f1, f2, d1, d2)):
+        return [("model_lost", "one of %s" % ", ".join((f1, f2, d1, d2)))]
+    L2 = layer_with(None, g2)
+    problems = []
+    for fact_name, related in names:
+        r2 = sorted(r.name for r in g2.models[fact_name].relationships)
+        if related not in r2:
+            problems.append(("relationship_lost", "%s -> %s (has %r)" % (fact_name, related, r2)))
+        xq = dict(metrics=["%s.m" % fact_name], dimensions=["%s.region" % related])
+        try:
+            a = dbutil.canon_rows(L1.conn.execute(L1.compile(**xq)).fetchall())
+        except Exception:
+            continue
+        try:
+            b = dbutil.canon_rows(L2.conn.execute(L2.compile(**xq)).fetchall())
+            if a != b:
+                problems.append(("join_value", "%s.m by %s.region: %s -> %s" % (fact_name, related, a[:4], b[:4])))
+        except Exception as e:
+            problems.append(("join_broken", "%s.m by %s.region: %s" % (fact_name, related, str(e)[:90].replace("\n", " "))))
+    return problems
+
+
 def feat_id(feats):
     return "+".join("%s%s" % (f, "=" + str(a) if a else "") for f, a in feats)
 
@@ -361,6 +400,22 @@ def run(c):
             c.violation("%s export -> import, feature %s: %s (%s)" % (key, fid, kind, detail[:160]), {"kind": "cell", "adapter": key, "features": [list(f) for f in feats], "problem": kind, "detail": detail})
         if len(c.samples) < 3 and not probs:
             c.samples.append({"adapter": key, "feature": fid, "result": "round trip keeps model, key, relationships; every surviving metric and dimension computes the same values; second trip is a fixed point"})
+    # model names with underscores (generated "<model>_<related>" names collide), for the adapters whose plain many_to_one cell is clean
+    for key in ADAPTERS:
+        try:
+            if underscore_names_cell(key, CONTROL):
+                continue               # the format does not keep this four-model graph even under harmless names: not this cell's subject
+            probs = underscore_names_cell(key, COLLIDING)
+        except Exception as e:
+            probs = [("harness_error", "%s: %s" % (type(e).__name__, str(e)[:120]))]
+        stats["underscore_name_cells"] = stats.get("underscore_name_cells", 0) + 1
+        for kind, detail in probs:
+            k3 = (key, "underscore_names", kind)
+            hit = lookup_known(known, k3)
+            if hit:
+                seen_known.add(hit)
+            else:
+                c.violation("%s export -> import, model names with underscores: %s (%s)" % (key, kind, detail[:160]), {"kind": "underscore_names", "adapter": key, "problem": kind, "detail": detail})
     if os.environ.get("VERIF_C12_WRITE_BASELINE") == "1" and os.path.realpath(lib.REPO) == "/repo":
         json.dump({"comment": "key / source / relationship changes across export -> import observed on the pinned tree (written by VERIF_C12_WRITE_BASELINE=1 ./check C12 --tier thorough; never at check time)",
                    "structural_changes": sorted(map(list, observed_structural))}, open(BASELINE, "w"), indent=0)
@@ -377,6 +432,10 @@ def run(c):
 def replay(path):
     body = json.load(open(path))
     r = body["replay"]
+    if r.get("kind") == "underscore_names":
+        probs = underscore_names_cell(r["adapter"])
+        print(probs)
+        return 1 if any(k == r["problem"] for k, _ in probs) else 0
     if r.get("kind") == "cell":
         probs = cell(r["adapter"], [tuple(f) for f in r["features"]])
         print(probs)
